@@ -35,6 +35,7 @@ type DocPeer struct {
 	Timeout time.Duration `dials:"dial_timeout"`
 	Since   time.Time     `dials:"since"` // a text-unmarshaling struct by value inside a slice element
 	dialed  int           // an unexported field (bookkeeping of the application) inside a slice element
+	Ωmega   int           `dials:"omega"`
 	Retry   *DocRetry     `dials:"retry"` // a pointer-to-struct section inside a slice element: each element has its own
 }
 
@@ -102,6 +103,7 @@ type CfgDoc struct {
 	Deep DL1 `dials:"deep"`
 	DocEmb
 	Name     string                   `dials:"name"`
+	Éclair   string                   `dials:"eclair"` // exported: the first rune is an upper-case letter, not an ASCII one
 	Count    int                      `dials:"count"`
 	Ratio    float64                  `dials:"ratio"`
 	On       bool                     `dials:"on"`
@@ -127,6 +129,7 @@ type CfgDoc struct {
 // DocVal: which leaves a document sets, and to what.
 type DocVal struct {
 	Name       *string          `json:"name,omitempty"`
+	Eclair     *string          `json:"eclair,omitempty"`
 	Count      *int             `json:"count,omitempty"`
 	Ratio      *float64         `json:"ratio,omitempty"`
 	On         *bool            `json:"on,omitempty"`
@@ -167,6 +170,7 @@ type PeerVal struct {
 	Weight         *int    `json:"weight,omitempty"`
 	TimeoutNS      *int64  `json:"timeout_ns,omitempty"`
 	Since          *string `json:"since,omitempty"`
+	Omega          *int    `json:"omega,omitempty"`
 	RetryCount     *int    `json:"retry_count,omitempty"`
 	RetryBackoffNS *int64  `json:"retry_backoff_ns,omitempty"`
 }
@@ -190,6 +194,9 @@ func (g *gen) docVal(p int) DocVal {
 	var v DocVal
 	if g.pct(p) {
 		v.Name = sp(fmt.Sprintf("name-%d", n))
+	}
+	if g.pct(p / 2) {
+		v.Eclair = sp(fmt.Sprintf("eclair%d", n))
 	}
 	if g.pct(p) {
 		v.Count = ip(n*7 + 1)
@@ -333,6 +340,9 @@ func (g *gen) docVal(p int) DocVal {
 			if g.pct(40) {
 				pv.Since = sp(fmt.Sprintf("2020-01-%02dT02:03:04Z", 1+(n+i)%27))
 			}
+			if g.pct(30) {
+				pv.Omega = ip(n*11 + i)
+			}
 			if g.pct(45) {
 				if g.pct(75) {
 					pv.RetryCount = ip(n*5 + i + 1)
@@ -341,7 +351,7 @@ func (g *gen) docVal(p int) DocVal {
 					pv.RetryBackoffNS = i64p(int64(n*7+i+1) * int64(time.Millisecond) * 10)
 				}
 			}
-			if pv.Addr == nil && pv.Weight == nil && pv.TimeoutNS == nil && pv.Since == nil {
+			if pv.Addr == nil && pv.Weight == nil && pv.TimeoutNS == nil && pv.Since == nil && pv.Omega == nil {
 				pv.Weight = ip(i)
 			}
 			v.Peers = append(v.Peers, pv)
@@ -396,6 +406,9 @@ func (v *DocVal) expected(def *DocVal) *CfgDoc {
 		}
 		if l.Name != nil {
 			c.Name = *l.Name
+		}
+		if l.Eclair != nil {
+			c.Éclair = *l.Eclair
 		}
 		if l.Count != nil {
 			c.Count = *l.Count
@@ -520,6 +533,9 @@ func (v *DocVal) expected(def *DocVal) *CfgDoc {
 				if pv.Since != nil {
 					p.Since, _ = time.Parse(time.RFC3339, *pv.Since)
 				}
+				if pv.Omega != nil {
+					p.Ωmega = *pv.Omega
+				}
 				if pv.RetryCount != nil || pv.RetryBackoffNS != nil {
 					p.Retry = &DocRetry{}
 					if pv.RetryCount != nil {
@@ -560,6 +576,9 @@ func (v *DocVal) fields(format string) (top []kv, limits []kv, in []kv, pin []kv
 	str := func(s string) string { return strconv.Quote(s) }
 	if v.Name != nil {
 		top = append(top, kv{"name", str(*v.Name)})
+	}
+	if v.Eclair != nil {
+		top = append(top, kv{"eclair", str(*v.Eclair)})
 	}
 	if v.Count != nil {
 		top = append(top, kv{"count", strconv.Itoa(*v.Count)})
@@ -691,6 +710,9 @@ func (v *DocVal) peerFields(format string) [][]kv {
 			} else {
 				l = append(l, kv{"since", strconv.Quote(*pv.Since)})
 			}
+		}
+		if pv.Omega != nil {
+			l = append(l, kv{"omega", strconv.Itoa(*pv.Omega)})
 		}
 		if pv.RetryCount != nil || pv.RetryBackoffNS != nil {
 			var parts []string
@@ -1263,7 +1285,7 @@ func (r *streamRun) checkUnset(format string, val reflect.Value, v *DocVal, doc 
 		return false, false
 	}
 	want := map[string]bool{
-		"Name": v.Name == nil, "Count": v.Count == nil, "Ratio": v.Ratio == nil, "On": v.On == nil, "Wait": v.WaitNS == nil,
+		"Name": v.Name == nil, "Éclair": v.Eclair == nil, "Count": v.Count == nil, "Ratio": v.Ratio == nil, "On": v.On == nil, "Wait": v.WaitNS == nil,
 		"When": v.When == nil, "Tags": v.Tags == nil, "Nums": v.Nums == nil, "Limits": v.Limits == nil, "Set": v.Set == nil, "Eps": v.Eps == nil,
 		"In": v.InHost == nil && v.InPort == nil, "PIn": v.PInHost == nil && v.PInPort == nil && !v.PInEmpty, "IP": v.IP == nil, "Peers": v.Peers == nil, "Alt": v.Alt == nil, "Waits": v.WaitsNS == nil, "Timeouts": v.TimeoutNS == nil,
 		"DocEmb": v.EmbN == nil && v.EmbS == nil && v.EmbInHost == nil && v.EmbInPort == nil, "Whens": v.Whens == nil, "PWaits": v.PWaitsNS == nil, "Deep": v.DeepLabel == nil && v.DeepWaitNS == nil,
